@@ -15,6 +15,7 @@ package main
 import (
 	"encoding/json"
 	"fmt"
+	"os"
 	"strings"
 	"time"
 
@@ -22,7 +23,7 @@ import (
 )
 
 type Case struct {
-	Kind     string   `json:"kind"`           // data | directions | reuse | pair | triple | history | aggregators | size | long-lived | two-instances | accum-ops (Keys = the operations)
+	Kind     string   `json:"kind"`           // data | directions | reuse | pair | triple | history | aggregators | size | long-lived | two-instances | accum-ops (Keys = the operations) | accum-refresh (Class = the program, Spec = the sort expression, Keys = the operations)
 	View     string   `json:"view,omitempty"` // the view of the key pool the case belongs to (replay: "" = main)
 	Spec     string   `json:"spec"`           // sort name (directions: the group)
 	Keys     []string `json:"keys"`
@@ -185,6 +186,11 @@ func worker(w *runner.W) {
 	groupOrder, groups := groupsOf()
 	var caseNo int64
 	expired := false
+	if os.Getenv("VERIF_C13_ONLY") == "accum-refresh" {
+		// development aid (not the registered check): only the refresh histories of the accumulating group
+		workerAccumRefresh(w, &caseNo, &expired)
+		return
+	}
 
 	// ---- A. data sets: subsets x values x specs x permutations (+ re-use, aggregators)
 	for vi := range views {
@@ -541,6 +547,64 @@ func worker(w *runner.W) {
 			return true
 		})
 	}
+
+	workerAccumRefresh(w, &caseNo, &expired)
+}
+
+// workerAccumRefresh: section G of the worker.
+func workerAccumRefresh(w *runner.W, caseNo *int64, expired *bool) {
+	// ---- G. accumulating group: accumulator programs x sort expressions x sample sequences x refresh patterns
+	progs := accPrograms(w.Quick())
+	for n := 0; n <= accRefreshMaxDepth(w.Quick()) && !*expired; n++ {
+		for _, p := range progs {
+			if n > p.depth(w.Quick()) {
+				continue
+			}
+			for ei := range p.exprs {
+				e := &p.exprs[ei]
+				forEachSampleSeq(n, func(samples []accSample) bool {
+					*caseNo++
+					if !w.Owns(*caseNo) {
+						return true
+					}
+					if w.Expired() {
+						*expired = true
+						return false
+					}
+					ref := p.reference(e, samples)
+					forEachRefreshPattern(n, func(refresh []int) {
+						w.SetCase(func() any {
+							return Case{Kind: "accum-refresh", Class: p.String(), Spec: e.text, Keys: showSamples(p, samples, refresh), Values: []int64{}}
+						})
+						fs, calls, final := runAccumRefresh(p, e, samples, refresh, ref)
+						refreshes := 0
+						for _, r := range refresh {
+							if r != 0 {
+								refreshes++
+							}
+						}
+						w.Eval(len(final) >= 2 && refreshes >= 1)
+						w.Add("accumulator_refresh_histories", 1)
+						w.Add("accumulator_groups_calls", int64(calls))
+						w.Add("sorts", int64(calls))
+						if refreshes == 0 {
+							w.Outcome("accum-refresh", p.String(), e.text, fmt.Sprint(final))
+						}
+						if len(fs) > 0 {
+							report(w, Case{Kind: "accum-refresh", Class: p.String(), Spec: e.text, Keys: showSamples(p, samples, refresh), Values: []int64{}}, fs...)
+						}
+					})
+					return !*expired
+				})
+				if *expired {
+					break
+				}
+			}
+			if *expired {
+				break
+			}
+		}
+	}
 }
 
 // runSizeUnit: one (name group, class, n) of the size family: every size spec of
@@ -616,6 +680,31 @@ func replayGenerated(w *runner.W, c Case) bool {
 	case "two-instances":
 		_, f := checkTwoInstances(c.Spec, c.Relation, c.N)
 		report(w, c, f)
+	case "accum-refresh":
+		p := findAccProgram(c.Class)
+		if p == nil {
+			panic("replay: unknown accumulator program " + c.Class)
+		}
+		var e *accSortExpr
+		for i := range p.exprs {
+			if p.exprs[i].text == c.Spec {
+				e = &p.exprs[i]
+			}
+		}
+		if e == nil {
+			panic("replay: unknown sort expression " + c.Spec + " of program " + c.Class)
+		}
+		samples, refresh := parseRefreshOps(p, c.Keys)
+		seen := map[string]bool{}
+		for i := 0; i < 4; i++ {
+			fs, _, _ := runAccumRefresh(p, e, samples, refresh, p.reference(e, samples))
+			for _, f := range fs {
+				if !seen[f.sig] {
+					seen[f.sig] = true
+					report(w, c, f)
+				}
+			}
+		}
 	case "accum-ops":
 		// (a rejected expression may leave an order that follows the map iteration: repeat)
 		seen := map[string]bool{}
@@ -737,7 +826,7 @@ func main() {
 					generated++
 				}
 			}
-			return fmt.Sprintf("key pool of %d keys in %d views (%s); inside each view: every subset up to the view's size (value sorts: every assignment of the view's totals to the keys, 4 patterns over {1,2} for sets of 5; name sorts: one alternating 1,2 assignment) x every permutation handed to sorting.SortBy (data sets of up to %d keys: all n! permutations; the complete 12-month sets: every arrangement i -> (o+i*s) mod 12 of the calendar order for every offset o and every stride s coprime to 12, i.e. all rotations, all rotations of the reversal and the stride-5/7 interleavings, and each of them with every adjacent transposition: 576 permutations) x %d sorter specs: helpers.BuildSorter names {text,'',numeric,contextual,context,date,value} x {'',:asc,:desc,:rev,:reverse}, 3 mixed-case spellings, and the package sorters used by pkg/csv and cmd/reduce (NVValueSorter, NVNameSorter, NVSmartSorter, ByName, ByContextual, Reverse(ByContextual), ByDateWithContextual), each permutation with a fresh sorter instance: one output sequence per data set, semantic clause of the mode on it, direction relations inside each name group; re-use of one instance (specs without aliases; value sorts with the all-1 and the alternating totals): first every permutation of the same data or of the data minus one key (sets up to %d), or any ordered pair of keys of the view (sets up to %d), then every permutation of the data; the same data through MatchCounter.ItemsSortedBy, SubKeyCounter.ItemsSorted, TableAggregator.OrderedRows/OrderedColumns and AccumulatingGroup.Groups (with and without sort expression) in two arrival orders (sets up to %d, only where the canonical sequence exists); comparator axioms with a fresh instance per decision on all ordered pairs and triples of distinct keys of each view (value sorts: all totals of the view), and every decision repeated on an instance that made any one other comparison before (all 4-tuples of the view). %s evaluation = one (spec, data set) with all its permutations, one (spec, first key) axiom block, one (spec, size class, n), one long-lived history, one pair of alternately used instances or one accumulating-group operation history; non-trivial = at least 2 keys (an accumulating-group operation history: at least 2 groups and at least one SetSort)", len(pool)-generated, len(views), strings.Join(vs, "; "), allPermsUpTo, len(specs), b.reuseSame, b.reuseOther, b.agg, sizeAndHistoryRule(quick)+accumOpsRule(quick))
+			return fmt.Sprintf("key pool of %d keys in %d views (%s); inside each view: every subset up to the view's size (value sorts: every assignment of the view's totals to the keys, 4 patterns over {1,2} for sets of 5; name sorts: one alternating 1,2 assignment) x every permutation handed to sorting.SortBy (data sets of up to %d keys: all n! permutations; the complete 12-month sets: every arrangement i -> (o+i*s) mod 12 of the calendar order for every offset o and every stride s coprime to 12, i.e. all rotations, all rotations of the reversal and the stride-5/7 interleavings, and each of them with every adjacent transposition: 576 permutations) x %d sorter specs: helpers.BuildSorter names {text,'',numeric,contextual,context,date,value} x {'',:asc,:desc,:rev,:reverse}, 3 mixed-case spellings, and the package sorters used by pkg/csv and cmd/reduce (NVValueSorter, NVNameSorter, NVSmartSorter, ByName, ByContextual, Reverse(ByContextual), ByDateWithContextual), each permutation with a fresh sorter instance: one output sequence per data set, semantic clause of the mode on it, direction relations inside each name group; re-use of one instance (specs without aliases; value sorts with the all-1 and the alternating totals): first every permutation of the same data or of the data minus one key (sets up to %d), or any ordered pair of keys of the view (sets up to %d), then every permutation of the data; the same data through MatchCounter.ItemsSortedBy, SubKeyCounter.ItemsSorted, TableAggregator.OrderedRows/OrderedColumns and AccumulatingGroup.Groups (with and without sort expression) in two arrival orders (sets up to %d, only where the canonical sequence exists); comparator axioms with a fresh instance per decision on all ordered pairs and triples of distinct keys of each view (value sorts: all totals of the view), and every decision repeated on an instance that made any one other comparison before (all 4-tuples of the view). %s evaluation = one (spec, data set) with all its permutations, one (spec, first key) axiom block, one (spec, size class, n), one long-lived history, one pair of alternately used instances, one accumulating-group operation history or one accumulating-group refresh history; non-trivial = at least 2 keys (an accumulating-group operation history: at least 2 groups and at least one SetSort; a refresh history: at least 2 groups and at least one Groups() call between two samples)", len(pool)-generated, len(views), strings.Join(vs, "; "), allPermsUpTo, len(specs), b.reuseSame, b.reuseOther, b.agg, sizeAndHistoryRule(quick)+accumOpsRule(quick)+accRefreshRule(quick))
 		},
 		Assumptions: func(string) []string {
 			return []string{
@@ -748,6 +837,7 @@ func main() {
 				"date views: homogeneous sets of timestamps of one layout (ISO with .mmm/.uuuuuu/.nnnnnnnnn, month/day/year with .mmm, RFC 3339 with .mmm and offset, ISO seconds, ISO minutes, ISO / RFC 3339 / nginx with numeric offset) whose keys differ only in the fractional second, the second, the minute, the offset (one wall clock in six zones; wall clocks ordered differently from their instants; four spellings of ONE instant) or the year (1600, 1901, 1969/1970, 2038, 2262, 9999); the reference computes each key's instant from its calendar fields (days-from-civil, checked against package time at start-up) and `date` must order by instant; distinct texts of one instant may come in either order, but in ONE order (input class date-same-instant); in a signature the differing aspect follows the input class (all-date-same-layout/sub-second)",
 				"size families: one generated key set per (class, n) and a bounded family of permutations (not all n!); only homogeneous classes with a fresh instance per sort, so the recorded contextual/date findings (mixtures, re-use after foreign keys) are not involved; weekday/month sets beyond 7/12 keys contain several spellings of one day/month, whose mutual order is only required to be deterministic",
 				"accumulating-group operation histories: groups for which the accepted sort expression has EQUAL values (always so after SetSort(\"\"), which compiles to the empty text) may come in any order and are not compared with the fresh aggregator or between two calls (AccumulatingGroup.Groups has no tie-break and collects the groups from a Go map); the value sequence must still be sorted; which expressions SetSort accepts is taken from its return value, not demanded",
+				"accumulating-group refresh histories: the data columns are integers throughout (samples carry the values 0, 2, 10; min starts at 99), so the harness's fold is plain integer arithmetic; the sort value of a group is what the expression reads from that fold (a column's decimal text, a part of the group key, two of them joined with ':', or the decimal sum of two columns); the reference order is demanded as text under ByName and by magnitude under ByNameSmart only when every sort value is an integer (other values under ByNameSmart: only the comparison with the fresh aggregator and repeatability); groups with equal sort values may come in either order as far as the reference is concerned, but in the SAME order as on a fresh aggregator with the same samples (\"any two distinct keys are ordered the same way every time\"); the refreshes between samples use ByNameSmart and Reverse(ByNameSmart) only; SetSort is called once, before the first sample (later SetSort calls: the operation histories above)",
 				"history families: text, numeric and value sorters must be stateless across data sets of any class; contextual and date instances are only given homogeneous histories (all weekday names, all month names, all ISO dates, all US dates, all millisecond timestamps, all offset timestamps), their behaviour after a key outside the first inferred set/layout being the recorded known finding; the expected result of every sort is what a fresh instance built by the same call gives",
 				"the calendar views hold every weekday and every month as full name and as 3-letter abbreviation, each in lower case, Capitalised and UPPER case, one view per spelling form plus two views per set in which neighbouring names have different forms; a set of such names is a homogeneous set of weekday (month) names and `contextual` must order it by calendar position whatever the letter case; in a signature the spelling form follows the input class (all-weekday/full-name-capitalised). The longer abbreviations the sorter also knows (tues, thur, thurs, sept) are not demanded",
 			}
